@@ -149,7 +149,10 @@ class CHECK(Check):
     pid = "C02"
     technique = ("Lean 4 theorems over a model of DisaggregatedResult.apply_grouping/difference/ratio on extended rationals "
                  "(NaN, +-inf) whose grouping functions and ratio_sub_one are lifted from the source + compiled-driver "
-                 "correspondence with MetricFrame.group_min/group_max/difference/ratio")
+                 "correspondence with MetricFrame.group_min/group_max/difference/ratio; the BODIES of apply_grouping/difference/"
+                 "ratio are symbolically executed by lifters/aggregate_gen.py into Generated/AggregateGen.lean (compositions of "
+                 "the pandas-level primitives of Model/AggregatePrim.lean) and proved equal to the model; multi-metric frames "
+                 "(Model/AggregateFrame.lean, row-major DataFrames) are proved column-wise equal to the single-metric model")
     level_text = ("Theorems (all tables, any number of strata/groups, NaN cells): group_min/max are attained lower/upper bounds "
                   "of the non-NaN groups; difference(between)=max-min; difference(to_overall)=max|v-o|; ratio(between)=min/max "
                   "(IEEE division); ratio(to_overall)=min ratio_sub_one(v/o) with ratio_sub_one r = min(r,1/r) for r>=0; "
@@ -157,7 +160,14 @@ class CHECK(Check):
                   "group values are negative (PROVED counter-witness: finding F8) ; ratio>=0 on non-negative tables; "
                   "between<=2*to_overall; to_overall<=between whenever overall lies between group min and max, and the "
                   "weighted-mean metrics' overall value does (partition lemma). Tie: real MetricFrame aggregates vs compiled "
-                  "Lean model on the implementation's own by_group/overall tables; independent Fraction oracle.")
+                  "Lean model on the implementation's own by_group/overall tables; independent Fraction oracle. "
+                  "Added: applyGroupingGen/differenceGen/ratioGen (lifted method bodies) = model for all tables; every aggregate "
+                  "of a multi-column frame = the single-metric aggregate of each column (any number of columns/strata; "
+                  "errors='raise' fails for every column iff a by_group cell is non-scalar; to_overall difference fails iff an "
+                  "overall cell is non-scalar; to_overall ratio iff any cell is); difference=0 iff all non-NaN groups equal "
+                  "(resp. equal the overall); ratio(between)=1 iff all equal and non-zero; single non-empty group; "
+                  "ratio(to_overall)>=ratio(between) for non-negative weighted-mean metrics (false without 'overall between the "
+                  "extremes': proved witness).")
     design_ref = "DESIGN.md section 4, C02"
     quick_cases = 1100
     thorough_cases = 20000
@@ -170,6 +180,10 @@ class CHECK(Check):
             "1..4 groups x 1..3 strata, 1..2 sensitive features (so empty intersections), all-equal groups, zero/negative/NaN "
             "overall. For every metric column all 12 aggregates (min,max x raise/coerce; difference,ratio x between_groups/"
             "to_overall x raise/coerce) are read. distinct = distinct (by_group, overall) tables; non-trivial = >= 2 groups. "
+            "(c) MULTI-METRIC frames given cell by cell through the public API (1..3 metric columns x 0..2 control features x "
+            "1..4 groups per stratum, NaN cells, all-NaN strata, 27% with non-scalar cells in by_group and/or overall of one "
+            "column): the whole frame goes through the driver op aggf.eval and all 12 aggregates are compared column by "
+            "column, including which calls raise. "
             "thorough: ALL tables over {0,1/2,1,-1,nan} with <= 4 groups x <= 2 strata and overall in {0,1/2,1,-1}")
     explanation = ("oracle = the documented formulas evaluated exactly (Fractions, IEEE rules for x/0) on the implementation's own "
                    "by_group/overall; tolerance 1e-12 relative; -0.0 is identified with 0.0. Known findings on the unchanged "
@@ -177,7 +191,12 @@ class CHECK(Check):
                    "ratio keeps a negative quotient r in (-1,0) instead of min(r,1/r)=1/r).")
     trusted = ("pandas skipna min/max, groupby(level=), index alignment of (by_group - overall) and unstack are modelled by "
                "per-stratum NaN-skipping folds (Aggregate.vals/strata/overallAt), checked by the correspondence only",
-               "float tables are passed to the Lean model as the exact rationals of the float64 values")
+               "float tables are passed to the Lean model as the exact rationals of the float64 values",
+               "pandas DataFrame semantics assumed by Model/AggregateFrame.lean: element-wise ops row by row, reductions column by "
+               "column, alignment on the control levels, an exception in one column aborts the call; object-dtype behaviour "
+               "(when a reduction over non-scalar cells raises) is an observed rule, compared only on frames where every "
+               "non-scalar by_group cell shares its (stratum, column) with another non-NaN cell and every stratum has >= 2 rows",
+               "lifters/aggregate_gen.py: symbolic execution of the three method bodies into the primitives of Model/AggregatePrim.lean")
     assumptions = ("metric values are finite or NaN (no +-inf cells, no -0.0)", "sample weights are positive")
 
     def __init__(self):
